@@ -83,6 +83,18 @@ class Program:
             if astq.is_call(n) and n.get("cid"):
                 for g in self.resolve(n["cid"]):
                     out.append((n, g))
+        # construction hidden inside the standard library: v.emplace_back(args...) / std::make_shared<T>(args...) run a
+        # constructor of the element type T (first template argument in the mangled callee); every constructor of T is a callee
+        for n in func.nodes():
+            if n.get("k") in ("call", "mcall") and n.get("ext") and n.get("n") in ("emplace_back", "emplace", "emplace_front", "make_shared", "make_unique", "construct_at") and n.get("cid"):
+                import re as _re
+                m_ = _re.search(r"I(\d+)([A-Za-z_][A-Za-z_0-9]*)", n["cid"])
+                if m_:
+                    cls = m_.group(2)[:int(m_.group(1))]
+                    if cls in self.facts.records:
+                        for g in self.facts.funcs.values():
+                            if g.rec == cls and g.short == cls and g.body is not None:
+                                out.append((n, g))
         # indirect calls through a table of function pointers held in a global (e.g. tfs[i].fun(...)):
         # every function whose address appears in that global's initialiser is a possible callee
         for n in func.nodes():
